@@ -38,4 +38,13 @@ def sameVisiblePicture (a b : Img) : Prop :=
   (pixelColours a).length = (pixelColours b).length ∧
   ∀ p ∈ List.zip (pixelColours a) (pixelColours b), alphaEq p.1 p.2
 
+/-- the `8 / depth` samples packed in one byte, most significant first (PNG specification, 7.2) -/
+def subSamples (depth : Nat) (b : UInt8) : List Nat :=
+  (List.range (8 / depth)).map fun k => (b.toNat / 2 ^ (8 - depth * (k + 1))) % 2 ^ depth
+
+/-- the picture of an image with fewer than 8 bits per sample (one channel): per scan line, the first
+    `pixels` samples of the line's bytes (the rest of the last byte is padding) -/
+def lowColours (ct : ColorType) (depth : Nat) (lines : List (UInt8 × Bytes × Option Nat × Nat)) : List Px :=
+  lines.flatMap fun l => ((l.2.1.flatMap (subSamples depth)).take l.2.2.2).map fun v => colourOf ct depth [v]
+
 end OxiModel.Spec
